@@ -198,6 +198,10 @@ def execute(ctx, vh, cases, name):
     core.write_ndjson(cp, cases)
     tp = os.path.join(d, "trace.ndjson")
     core.run_vh(vh, ["ply-exec", "-in", cp, "-out", tp], timeout=3000)
+    if os.path.exists(tp + ".aborted"):
+        # the code under test kept hanging: the harness stopped after a few TIMEOUT observations (all in the trace)
+        with open(tp + ".aborted") as f:
+            ctx.extra["execution_aborted"] = f.read().strip()
     with open(tp) as f:
         return f.readlines()
 
@@ -426,7 +430,7 @@ def run_family(ctx, prop):
                     "random meshes (lattice, float bit patterns, big integers); distinct by mesh+options; every case "
                     "has >= 1 attribute and is executed in ascii, little and big endian")
         for k in ("welded_triangle_texcoord", "point_nonidentity_idx", "uchar_stored", "custom_writer", "read_ok"):
-            if counters[k] == 0:
+            if counters[k] == 0 and "execution_aborted" not in ctx.extra:
                 raise core.Infra("vacuity guard: no case exercised %s" % k)
     else:
         ctx.rule = ("cases = abstract third-party files x 3 encodings: TLC BFS of PlyGenFile (every ordered property "
@@ -434,7 +438,7 @@ def run_family(ctx, prop):
                     "layouts, seeded random files (large, float bit patterns, big integers); distinct by file+decoration")
         for k in ("alias_types", "crlf", "comments", "quads", "texcoord_list", "unknown_scalar", "uchar_props",
                   "permuted_group", "read_ok"):
-            if counters[k] == 0:
+            if counters[k] == 0 and "execution_aborted" not in ctx.extra:
                 raise core.Infra("vacuity guard: no case exercised %s" % k)
     for c in cases[:1] + cases[-1:]:
         ctx.sample({"tag": c.get("tag"), "case": json.dumps(strip(c))[:600]})
@@ -457,6 +461,9 @@ def run_family(ctx, prop):
         ctx.violation(sig, what, {"family": "ply", "case": strip(c), "fmt": f["fmt"]})
     ctx.extra["flags_for_other_properties"] = other
     ctx.extra["rejections_per_signature"] = per_sig
+    if "execution_aborted" in ctx.extra and not any("TIMEOUT" in s for s in per_sig):
+        raise core.Infra("execution was aborted after repeated timeouts but no TIMEOUT was judged: " +
+                         ctx.extra["execution_aborted"])
     if ctx.tier == "thorough" or os.environ.get("VERIF_SELFTEST") == "1":
         self_test(ctx, raw, findings, kind)
     ctx.assumptions += [
